@@ -2,6 +2,7 @@ package rules
 
 import (
 	"fmt"
+	"os"
 	"go/token"
 	"go/types"
 	"regexp"
@@ -70,7 +71,7 @@ func inlinedCalls(fn *ssa.Function, target string, depth int) []inlinedCall {
 }
 
 func c05(c *core.Ctx) map[string]interface{} {
-	c.Explanation = "Static wiring check of the 5G-AKA key hierarchy (C05). Decided: (R5.fc) the FC constants are 6A/6B/6C/6D/69 (TS 33.501 Annex A) and each derivation uses the FC of its role; (R5.pl) every KDF parameter is followed by the 2-octet big-endian length of the same value (TS 33.220 B.2), the parameter lists are K_AUSF(SNN, SQN xor AK = AUTN[0..5]), K_SEAF(SNN), K_AMF(SUPI digits, ABBA 00 00), K_NASenc(0x01, ciphering alg), K_NASint(0x02, integrity alg); (R5.chain) each derivation is keyed with the output of the previous one starting from CK||IK of one f2345 run over the function's RAND, the 128-bit NAS keys are octets 16..31 of the KDF output and land in KnasEnc resp. KnasInt; (R5.kdf) GetKDFValue is HMAC-SHA-256(key, FC || P0 || L0 || ...) and KDFLen a 2-octet big-endian length; (R5.op) Milenage is built from OP exactly when no OPc is configured and from OPc otherwise, and RES* is ComputeRESStar(mcc, mnc) of the same Milenage instance. Calls are collected through same-package helpers (inlining depth 3). (R5.abort) the derivation ends the process only on a decode or library error, and a MAC-A verification added to it has to use the AMF octets of the received AUTN; (R5.pure) no package-level cache or scratch buffer is reachable from the derivation functions (keys depend on this call's inputs only); (R1.snn) the serving network name handed to the derivation is 5G:mnc<3 digits>.mcc<mcc>.3gppnetwork.org built from the MNC and MCC parameters in their roles. NOT decided: HMAC/SHA-256/AES arithmetic and the Milenage library github.com/wmnsk/milenage (trusted), numerical equality with a network-side implementation. (components) the rule set of C15 (Milenage f1..f5*, AUTN/AUTS checks) is run as part of this check."
+	c.Explanation = "Static wiring check of the 5G-AKA key hierarchy (C05). Decided: (R5.fc) the FC constants are 6A/6B/6C/6D/69 (TS 33.501 Annex A) and each derivation uses the FC of its role; (R5.pl) every KDF parameter is followed by the 2-octet big-endian length of the same value (TS 33.220 B.2), the parameter lists are K_AUSF(SNN, SQN xor AK = AUTN[0..5]), K_SEAF(SNN), K_AMF(SUPI digits, ABBA 00 00), K_NASenc(0x01, ciphering alg), K_NASint(0x02, integrity alg); (R5.chain) each derivation is keyed with the output of the previous one starting from CK||IK of one f2345 run over the function's RAND, the 128-bit NAS keys are octets 16..31 of the KDF output and land in KnasEnc resp. KnasInt; (R5.kdf) GetKDFValue is HMAC-SHA-256(key, FC || P0 || L0 || ...) and KDFLen a 2-octet big-endian length; (R5.op) Milenage is built from OP exactly when no OPc is configured and from OPc otherwise, and RES* is ComputeRESStar(mcc, mnc) of the same Milenage instance. Calls are collected through same-package helpers (inlining depth 3). (R5.abort) the derivation ends the process only on a decode or library error, and a MAC-A verification added to it - whether it aborts or gives up by returning without a result - has to use the AMF octets of the received AUTN; (R5.pure) no package-level cache or scratch buffer is reachable from the derivation functions (keys depend on this call's inputs only); (R1.snn) the serving network name handed to the derivation is 5G:mnc<3 digits>.mcc<mcc>.3gppnetwork.org built from the MNC and MCC parameters in their roles; (R16.cred) the subscription record the derivation reads is filled with K, OPc and OP each in its own field, in whatever form it is built (field stores or a composite literal), and a helper that precomputes OPc is handed OP and K in their roles. NOT decided: HMAC/SHA-256/AES arithmetic and the Milenage library github.com/wmnsk/milenage (trusted), numerical equality with a network-side implementation. (components) the rule set of C15 (Milenage f1..f5*, AUTN/AUTS checks) is run as part of this check."
 	c.Assumptions = []string{"crypto/hmac, crypto/sha256 and github.com/wmnsk/milenage (f2345, ComputeRESStar incl. its own FC 6B and SNN construction) are correct",
 		"FC values per TS 33.501: A.2 K_AUSF 0x6A, A.4 RES* 0x6B, A.6 K_SEAF 0x6C, A.7 K_AMF 0x6D, A.8 algorithm keys 0x69"}
 	r0swap(c)
@@ -479,6 +480,48 @@ func r5abort(c *core.Ctx) {
 			}
 		default:
 			c.SoftUndecided("DeriveRESstarAndSetKey aborts under a condition that is not an error test: %s", clip(cnd))
+		}
+	}
+	// a verification that does not abort but gives up otherwise (returns without a result): the same judgement
+	for _, f := range fns {
+		pp := core.NewPather(f)
+		for _, b := range f.Blocks {
+			if len(b.Instrs) == 0 {
+				continue
+			}
+			iff, ok := b.Instrs[len(b.Instrs)-1].(*ssa.If)
+			if !ok {
+				continue
+			}
+			cnd := pp.Path(iff.Cond)
+			if os.Getenv("VERIF_DEBUG") != "" {
+				fmt.Println("R5.abort cond", cnd)
+			}
+			if !(strings.Contains(cnd, "bytes.Equal(") || strings.Contains(cnd, "reflect.DeepEqual(") || strings.Contains(cnd, "subtle.ConstantTimeCompare(")) {
+				continue
+			}
+			if !strings.Contains(cnd, ".F1(") {
+				continue
+			}
+			// already judged as an abort site?
+			abortBelow := false
+			for _, ci := range sites {
+				name := core.CalleeName(ci.Common())
+				if ci.Parent() == f && (strings.HasSuffix(name, "/fatal.Fatalf") || strings.HasSuffix(name, "/fatal.Fatal")) {
+					if cs := dominatingConds(pp, ci.Block()); len(cs) > 0 && strings.HasPrefix(cs[0], cnd) {
+						abortBelow = true
+					}
+				}
+			}
+			if abortBelow {
+				continue
+			}
+			key := "tglib.DeriveRESstarAndSetKey:" + ord.next("mac-check")
+			if amfFromSubscription {
+				c.Fail(R, key, iff.Cond.Pos(), "the UE gives up the authentication when its own MAC-A (f1) differs from the one in AUTN, but computes MAC-A with the AMF field stored in the subscription data (AuthenticationManagementField) instead of the AMF octets of the received AUTN (autn[6:8]): every network whose AMF field differs from the configured constant is rejected although its AUTN is valid")
+			} else {
+				c.SoftUndecided("DeriveRESstarAndSetKey verifies a MAC (%s); the inputs of that verification are not modelled", clip(cnd))
+			}
 		}
 	}
 	if n < 1 {
